@@ -9,7 +9,7 @@
 // Implementation-side oracle only (no Lean model: C07's theorems are about the QBFT instance/controller; this engine checks
 // that the glue around them — queue filter, priorities, timer registration — lets the proven mechanism run):
 // every correct operator decides the duty within f+3 rounds, i.e. before the deadline of round f+3 plus slack.
-// A failed case is retried twice with doubled timer allowances before it is reported (scheduling noise never alarms).
+// A failed case is retried up to three times with doubled timer allowances before it is reported (scheduling noise never alarms).
 package main
 
 import (
@@ -426,7 +426,7 @@ func kvs(ws []string) map[string]string {
 	return m
 }
 
-var baseQuick = 350 * time.Millisecond
+var baseQuick = 450 * time.Millisecond
 
 func doCase(run *hx.Run, line string) {
 	ws := strings.Fields(line)
@@ -503,21 +503,24 @@ type attemptResult struct {
 	last     caseResult
 	attempts int
 	quick    time.Duration
+	retried  []string // signatures of the attempts that failed before one succeeded (scheduling noise, reported as tags only)
 }
 
 func runAttempts(p params) attemptResult {
 	quick := baseQuick
 	var last caseResult
+	var retried []string
 	attempts := 0
-	for attempts < 3 {
+	for attempts < 4 {
 		attempts++
 		last = runCase(p, quick)
 		if last.ok {
 			break
 		}
-		quick *= 2 // scheduling noise: give every round twice the time and try again
+		retried = append(retried, last.sig)
+		quick *= 2 // scheduling noise: give every round twice the time and try again (fresh validators)
 	}
-	return attemptResult{last, attempts, quick}
+	return attemptResult{last, attempts, quick, retried}
 }
 
 func record(run *hx.Run, p params, line string, a attemptResult) {
@@ -534,5 +537,10 @@ func record(run *hx.Run, p params, line string, a attemptResult) {
 	run.Tag("role/" + p.role)
 	run.Tag("fault/" + p.fault)
 	run.Tag(fmt.Sprintf("attempts/%d", a.attempts))
+	if a.last.ok {
+		for _, r := range a.retried {
+			run.Tag("retried/" + r)
+		}
+	}
 	run.Seen(fmt.Sprintf("%s/n%d/%s/rc%d/d%d/%s", p.role, p.n, p.fault, p.rcDelay, p.duties, strings.Join(rs, ",")))
 }
